@@ -201,7 +201,16 @@ func buildXMSS(wSel, lenKind, k, delta, descKind, d0, d1, d2, contentKind int, c
 	base := wotsBase(w)
 	var n int
 	cls := ""
-	switch lenKind % 8 {
+	effBase := base // the base size the length was derived from (another w's in the cross-parameter class)
+	switch lenKind % 9 {
+	case 8:
+		// a length that is well-formed for ANOTHER Winternitz parameter, with a descriptor whose height matches it
+		ow := []uint32{16, 4, 256}[(k/16)%3]
+		if ow == w {
+			ow = []uint32{4, 256, 16}[(k/16)%3]
+		}
+		effBase = wotsBase(ow)
+		n, cls = effBase+32*(4+2*(k%14)), fmt.Sprintf("length-of-w=%d-signature", ow)
 	case 0:
 		n, cls = k%41, "tiny"
 	case 1:
@@ -228,7 +237,7 @@ func buildXMSS(wSel, lenKind, k, delta, descKind, d0, d1, d2, contentKind int, c
 	c.PK = append([]byte{}, pk...)
 	switch descKind % 4 {
 	case 0: // consistent with the length
-		h := (n - base) / 32
+		h := (n - effBase) / 32
 		c.PK[0], c.PK[1], c.PK[2] = byte(d0%3), byte(h/2)&0x0f, 0
 		cls += "/descriptor-consistent"
 	case 1:
@@ -268,14 +277,14 @@ func buildXMSS(wSel, lenKind, k, delta, descKind, d0, d1, d2, contentKind int, c
 
 func TestXMSSVerifyHostile(t *testing.T) {
 	r := ev.New(t, prop, "TestXMSSVerifyHostile")
-	r.Rule("rapid: xmss.Verify and VerifyWithCustomWOTSParamW (w in {4,16,256}) with signature lengths from {0..40, base-1, base, base+1, base+32k-1/+0/+1 for k=0..31, around and beyond the maximum}, descriptor nibbles over all 16^4 combinations (the combination consistent with the length over-represented), content zeros / 0xFF / random / a valid signature / a valid signature with one byte changed, messages of 0..10^4 bytes; oracle: value or explicit string panic, never a runtime.Error, buffers unchanged; non-trivial = a call that got past the size and descriptor guards (reached hashing: answered true/false by the verifier proper), distinct by (entry, w, length, descriptor, content)")
+	r.Rule("rapid: xmss.Verify and VerifyWithCustomWOTSParamW (w in {4,16,256}) with signature lengths from {0..40, base-1, base, base+1, base+32k-1/+0/+1 for k=0..31, around and beyond the maximum, and lengths that are well-formed for ANOTHER Winternitz parameter with a matching descriptor}, descriptor nibbles over all 16^4 combinations (the combination consistent with the length over-represented), content zeros / 0xFF / random / a valid signature / a valid signature with one byte changed, messages of 0..10^4 bytes; oracle: value or explicit string panic, never a runtime.Error, buffers unchanged; non-trivial = a call that got past the size and descriptor guards (reached hashing: answered true/false by the verifier proper), distinct by (entry, w, length, descriptor, content)")
 	checks := r.PerShard(r.Pick(24000, 400000))
 	r.Rapid(t, "xv", checks, func(rt *rapid.T) {
 		msgLen := -1
 		if rapid.IntRange(0, 3).Draw(rt, "customMsg") == 0 {
 			msgLen = rapid.SampledFrom([]int{0, 1, 31, 32, 33, 135, 136, 137, 1000, 10000}).Draw(rt, "msgLen")
 		}
-		c := buildXMSS(rapid.IntRange(0, 3).Draw(rt, "w"), rapid.SampledFrom([]int{0, 1, 2, 3, 4, 5, 6, 6, 7, 7, 7, 7}).Draw(rt, "lenKind"), rapid.IntRange(0, 63).Draw(rt, "k"), rapid.IntRange(0, 2).Draw(rt, "delta"),
+		c := buildXMSS(rapid.IntRange(0, 3).Draw(rt, "w"), rapid.SampledFrom([]int{0, 1, 2, 3, 4, 5, 6, 6, 7, 7, 7, 7, 8, 8}).Draw(rt, "lenKind"), rapid.IntRange(0, 63).Draw(rt, "k"), rapid.IntRange(0, 2).Draw(rt, "delta"),
 			rapid.SampledFrom([]int{0, 0, 0, 1, 2, 3}).Draw(rt, "descKind"), rapid.IntRange(0, 255).Draw(rt, "d0"), rapid.IntRange(0, 255).Draw(rt, "d1"), rapid.IntRange(0, 255).Draw(rt, "d2"),
 			rapid.IntRange(0, 34).Draw(rt, "content"), rapid.Uint64().Draw(rt, "seed"), msgLen)
 		guard := judge(rt, r, c)
